@@ -147,8 +147,9 @@ def gen_lattice(rng, n_max=6, depth=2, allow=None, method=None, counter=None):
     for _ in range(rng.randrange(1, n_max + 1)):
         counter[0] += 1
         if depth > 0 and rng.random() < 0.25:
+            sub_name = f"sub{counter[0]}"       # fixed before recursing, so that nested names stay unique
             sub = gen_lattice(rng, max(2, n_max // 2), depth - 1, allow, method, counter)
-            sub["name"] = f"sub{counter[0]}"
+            sub["name"] = sub_name
             es.append(sub)
         else:
             es.append(gen_element(rng, name=f"el{counter[0]}", allow=allow, method=method))
